@@ -200,7 +200,7 @@ def r20_3(ctx: Ctx, entry, argc, pr):
     ca = repo.func("create_auto_report_file")
     fda = ctx.dep.of(ca)
     for node in own_nodes(ca):
-        if isinstance(node, ast.Return) and node.value is not None and isinstance(node.value, ast.Tuple) and len(node.value.elts) == 2:
+        if isinstance(node, ast.Return) and node.value is not None and isinstance(node.value, ast.Tuple) and len(node.value.elts) >= 2:
             atoms = full(fda.deps_of(node.value.elts[1]))
             ok = bool(atoms & {"call:token_hex", "call:uuid4", "call:token_urlsafe"})
             ctx.ob("R20.3", f"{ca.qual}: report id {norm(node.value.elts[1])}", (ca, node), ok,
